@@ -25,23 +25,24 @@ def tokOfJson (j : Json) : Except String Tok := do
     return .op ⟨← nat tag, ← listOf opndOfJson ins, ← listOf opndOfJson outs⟩
   | _ => throw "bad token"
 
-def pairOfJson (j : Json) : Except String (Nat × Nat) := do
+def pairOfJson (j : Json) : Except String (Nat × Nat × Bool) := do
   match (← arr j).toList with
-  | [a, b] => return (← nat a, ← nat b)
-  | _ => throw "bad pair"
+  | [a, b] => return (← nat a, ← nat b, false)
+  | [a, b, c] => return (← nat a, ← nat b, ← bool c)
+  | _ => throw "bad tile"
 
 def jExpr : IExpr → Json
   | .const c => Json.arr #[Json.str "c", jNat c]
   | .ivMinus c => Json.arr #[Json.str "iv", jNat c]
   | .ubMinus c => Json.arr #[Json.str "ub", jNat c]
 
-def jOpnd (tiles : List (Nat × Nat)) (e : IExpr) : Opnd → Json
-  | .tile j => Json.arr #[Json.str "tile", jNat (tiles.getD j (0, 0)).1, jNat (tiles.getD j (0, 0)).2, jExpr e]
+def jOpnd (tiles : List (Nat × Nat × Bool)) (e : IExpr) : Opnd → Json
+  | .tile j => Json.arr #[Json.str "tile", jNat (tileArr tiles j), jNat (tileOff tiles j), Json.bool (tileInv tiles j), jExpr e]
   | .alloc b => Json.arr #[Json.str "alloc", jNat b]
   | .ext b => Json.arr #[Json.str "ext", jNat b]
   | .dup b => Json.arr #[Json.str "dup", jNat b, jExpr e]
 
-def jSlot (tiles : List (Nat × Nat)) (st : List (List SOp)) (s : List (Nat × IExpr)) : Json :=
+def jSlot (tiles : List (Nat × Nat × Bool)) (st : List (List SOp)) (s : List (Nat × IExpr)) : Json :=
   Json.arr (s.flatMap fun (k, e) => (st.getD k []).map fun o =>
     Json.arr #[jNat o.tag, jList (jOpnd tiles e) o.ins, jList (jOpnd tiles e) o.outs]).toArray
 
